@@ -21,10 +21,12 @@
 (*   Wake(s)       awaiter::resume() called by push_lk / kick_lk after     *)
 (*                 they dropped the lock                                   *)
 (*   Fetch(s)      await_resume() -> check_next() -> get_value_lk    (CS 3)*)
-(* The whole-call forms (a real coroutine doing `co_await sub.next()`, the *)
-(* blocking conversion `bool(sub.next())`, the polling `next_ready()`) are *)
-(* the same critical sections run back to back by one thread; they are     *)
-(* separate actions (NextWhole, Poll) so that the real calls are replayed. *)
+(* The whole-call forms (a real coroutine doing `co_await sub.next()` once *)
+(* ("coro") or in a `while (co_await sub.next())` loop that goes on inside *)
+(* the publisher's wake-up ("loop"), the blocking conversion               *)
+(* `bool(sub.next())`, the polling `next_ready()`) are the same critical   *)
+(* sections run back to back by one thread; they are separate actions      *)
+(* (NextWhole, Poll) so that the real calls are replayed.                  *)
 (*                                                                         *)
 (* Genuine defects of the pinned tree are modelled behind boolean          *)
 (* constants (TRUE = repaired behaviour):                                  *)
@@ -45,7 +47,7 @@ CONSTANTS NSubs,        \* subscriber identities 1..NSubs (an identity can be re
           MinLen,       \* _min_queue_len
           MaxLen,       \* _max_queue_len; 99 stands for "unlimited"
           Modes,        \* subset of {"all","behind","recent"} new subscribers may choose from
-          Styles,       \* subset of {"split","coro","block","poll"}: how next() is called
+          Styles,       \* subset of {"split","coro","loop","block","poll"}: how next() is called
           MaxPub,       \* total number of values published
           MaxBatch,     \* largest batch of one publish call
           MaxJoin,      \* bound on subscribe events
@@ -60,9 +62,10 @@ VARIABLES pos, q, regs, nextFree, closed,
           wakeq,        \* awaiters collected by push_lk/kick_lk, to be resumed outside the lock
           pc, hnd, mode, recv, res, wakes,   \* per subscriber identity
           start, oow, wasKicked,             \* per subscriber ghosts
+          left,                              \* some subscriber has been destroyed (its pointer is stale)
           njoin, nkick
 
-vars == <<pos, q, regs, nextFree, closed, pubAlive, wakeq, pc, hnd, mode, recv, res, wakes, start, oow, wasKicked, njoin, nkick>>
+vars == <<pos, q, regs, nextFree, closed, pubAlive, wakeq, pc, hnd, mode, recv, res, wakes, start, oow, wasKicked, left, njoin, nkick>>
 pubvars == <<pos, q, closed, pubAlive>>
 
 Subs == 1..NSubs
@@ -73,8 +76,8 @@ Max2(a, b) == IF a > b THEN a ELSE b
 Min2(a, b) == IF a < b THEN a ELSE b
 SetMax(S) == CHOOSE x \in S : \A y \in S : y <= x
 
-Parked == {"parked", "parked_c", "parked_b"}
-WFetchPc == {"wfetch_c", "wfetch_b"}
+Parked == {"parked", "parked_c", "parked_l", "parked_b"}
+WFetchPc == {"wfetch_c", "wfetch_l", "wfetch_b"}
 Live(s) == pc[s] # "unborn"
 Slot(s) == regs[hnd[s] + 1]
 LastSeen(s) == IF recv[s] = <<>> THEN start[s] ELSE recv[s][Len(recv[s])]
@@ -95,6 +98,7 @@ Init == /\ pos = 1 /\ q = <<>> /\ regs = <<>> /\ nextFree = 0 /\ closed = FALSE 
         /\ start = [s \in Subs |-> 0]
         /\ oow = [s \in Subs |-> FALSE]
         /\ wasKicked = [s \in Subs |-> FALSE]
+        /\ left = FALSE
         /\ njoin = 0 /\ nkick = 0
 
 -----------------------------------------------------------------------------
@@ -179,7 +183,7 @@ Join(s, p, m, st, ow) ==
     /\ oow' = [oow EXCEPT ![s] = ow]
     /\ wasKicked' = [wasKicked EXCEPT ![s] = FALSE]
     /\ njoin' = njoin + 1
-    /\ UNCHANGED <<pos, q, closed, pubAlive, wakeq, nkick>>
+    /\ UNCHANGED <<pos, q, closed, pubAlive, wakeq, left, nkick>>
 
 (* subscriber(pub, type), publisher.h:402, 184-187 *)
 SubscribeRecent(s, m) == pubAlive /\ Join(s, pos - 1, m, pos - 1, FALSE)
@@ -189,7 +193,7 @@ SubscribeAt(s, p, m) == pubAlive /\ p <= pos - 1 /\ Join(s, p, m, p, p + 1 < pos
 
 (* subscriber(const subscriber &), publisher.h:421, 188-191 *)
 SubscribeCopy(c, o) ==
-    /\ Live(o) /\ (pc[o] = "idle" \/ (CopyBusy /\ pc[o] \in {"parked", "parked_c", "parked_b"}))
+    /\ Live(o) /\ (pc[o] = "idle" \/ (CopyBusy /\ pc[o] \in Parked))
     /\ ~Slot(o).kicked
     /\ Join(c, IF FixCopyParked /\ Slot(o).awt # 0 THEN Slot(o).pos - 1 ELSE Slot(o).pos,
             mode[o], LastSeen(o), oow[o])
@@ -197,7 +201,7 @@ SubscribeCopy(c, o) ==
 (* ~subscriber -> leave_lk, publisher.h:194-200.  A parked coroutine may be destroyed together with
    its subscriber (the stale _awt stays in the unused slot); a thread blocked in next() may not. *)
 Leave(s) ==
-    /\ Live(s) /\ pc[s] \notin {"parked_b", "wfetch_c", "wfetch_b"} /\ CanAct
+    /\ Live(s) /\ pc[s] \notin ({"parked_b"} \cup WFetchPc) /\ CanAct
     /\ \A i \in 1..Len(wakeq) : wakeq[i] # s
     /\ regs' = [regs EXCEPT ![hnd[s] + 1] = [@ EXCEPT !.pos = nextFree, !.used = FALSE]]
     /\ nextFree' = hnd[s]
@@ -210,6 +214,7 @@ Leave(s) ==
     /\ start' = [start EXCEPT ![s] = 0]
     /\ oow' = [oow EXCEPT ![s] = FALSE]
     /\ wasKicked' = [wasKicked EXCEPT ![s] = FALSE]
+    /\ left' = TRUE
     /\ UNCHANGED <<pos, q, closed, pubAlive, wakeq, njoin, nkick>>
 
 -----------------------------------------------------------------------------
@@ -220,19 +225,19 @@ Ready(s) ==
          /\ regs' = [regs EXCEPT ![hnd[s] + 1] = r.l]
          /\ pc' = [pc EXCEPT ![s] = IF r.ok THEN "fetch" ELSE "nr"]
     /\ res' = [res EXCEPT ![s] = "none"]
-    /\ UNCHANGED <<pubvars, nextFree, wakeq, hnd, mode, recv, wakes, start, oow, wasKicked, njoin, nkick>>
+    /\ UNCHANGED <<pubvars, nextFree, wakeq, hnd, mode, recv, wakes, start, oow, wasKicked, left, njoin, nkick>>
 
 Subscribe(s) ==
     /\ pc[s] = "nr" /\ CanAct
     /\ LET a == AdvSuspendLk(Slot(s), s) IN
          /\ regs' = [regs EXCEPT ![hnd[s] + 1] = a.l]
          /\ pc' = [pc EXCEPT ![s] = IF a.park THEN "parked" ELSE "fetch"]
-    /\ UNCHANGED <<pubvars, nextFree, wakeq, hnd, mode, recv, res, wakes, start, oow, wasKicked, njoin, nkick>>
+    /\ UNCHANGED <<pubvars, nextFree, wakeq, hnd, mode, recv, res, wakes, start, oow, wasKicked, left, njoin, nkick>>
 
 Fetch(s) ==
     /\ pc[s] = "fetch" /\ CanAct
     /\ Deliver(s, GetValueLk(Slot(s), mode[s]))
-    /\ UNCHANGED <<pubvars, nextFree, wakeq, hnd, mode, start, oow, wasKicked, njoin, nkick>>
+    /\ UNCHANGED <<pubvars, nextFree, wakeq, hnd, mode, start, oow, wasKicked, left, njoin, nkick>>
 
 (* next_ready(), publisher.h:490-494: await_ready(); if ready await_resume().  The caller cannot
    tell "not ready" from a consumed end of stream (documented).  The guard bounds repeated polls
@@ -246,7 +251,30 @@ Poll(s) ==
             ELSE /\ regs' = [regs EXCEPT ![hnd[s] + 1] = IF r.ok THEN g.l ELSE r.l]
                  /\ res' = [res EXCEPT ![s] = "notready"]
                  /\ UNCHANGED <<pc, recv, wakes>>
-    /\ UNCHANGED <<pubvars, nextFree, wakeq, hnd, mode, start, oow, wasKicked, njoin, nkick>>
+    /\ UNCHANGED <<pubvars, nextFree, wakeq, hnd, mode, start, oow, wasKicked, left, njoin, nkick>>
+
+(* `while (co_await sub.next()) consume(sub.value());` run by one thread from a registration l and
+   the values rcv received so far, until it parks or sees the end of the stream *)
+RECURSIVE DrainFrom(_, _, _, _, _)
+DrainFrom(s, l, rcv, m, fuel) ==
+    IF fuel = 0 THEN [l |-> l, recv |-> rcv, end |-> "stuck"]
+    ELSE LET r == AdvanceLk(l, m) IN
+         IF r.ok
+           THEN LET g == GetValueLk(r.l, m) IN
+                IF g.eos THEN [l |-> g.l, recv |-> rcv, end |-> "eos"]
+                         ELSE DrainFrom(s, g.l, Append(rcv, g.v), m, fuel - 1)
+           ELSE LET a == AdvSuspendLk(r.l, s) IN
+                IF a.park THEN [l |-> a.l, recv |-> rcv, end |-> "parked_l"]
+                ELSE LET g == GetValueLk(a.l, m) IN
+                     IF g.eos THEN [l |-> g.l, recv |-> rcv, end |-> "eos"]
+                              ELSE DrainFrom(s, g.l, Append(rcv, g.v), m, fuel - 1)
+
+Drained(s, d) ==
+    /\ regs' = [regs EXCEPT ![hnd[s] + 1] = d.l]
+    /\ recv' = [recv EXCEPT ![s] = d.recv]
+    /\ pc' = [pc EXCEPT ![s] = d.end]
+    /\ res' = [res EXCEPT ![s] = "none"]
+    /\ wakes' = [wakes EXCEPT ![s] = 0]
 
 (* a whole `co_await sub.next()` of a real coroutine ("coro"), or `bool(sub.next())` ("block",
    publisher.h:442-448 + awaiter.h:305-325), run by one thread without interference up to the
@@ -256,7 +284,8 @@ NextWhole(s, style) ==
     /\ (style = "block" /\ ~FixBlocking) => recv[s] # <<>>     \* else value() of an empty optional: UB
     /\ LET r == AdvanceLk(Slot(s), mode[s])
            a == AdvSuspendLk(r.l, s)
-       IN IF r.ok THEN Deliver(s, GetValueLk(r.l, mode[s]))
+       IN IF style = "loop" THEN Drained(s, DrainFrom(s, Slot(s), recv[s], mode[s], MaxPub + 3))
+          ELSE IF r.ok THEN Deliver(s, GetValueLk(r.l, mode[s]))
           ELSE IF a.park
                  THEN /\ regs' = [regs EXCEPT ![hnd[s] + 1] = a.l]
                       /\ pc' = [pc EXCEPT ![s] = IF style = "coro" THEN "parked_c" ELSE "parked_b"]
@@ -265,7 +294,7 @@ NextWhole(s, style) ==
                  ELSE IF style = "block" /\ ~FixBlocking
                         THEN DeliverStale(s, a.l)
                         ELSE Deliver(s, GetValueLk(a.l, mode[s]))
-    /\ UNCHANGED <<pubvars, nextFree, wakeq, hnd, mode, start, oow, wasKicked, njoin, nkick>>
+    /\ UNCHANGED <<pubvars, nextFree, wakeq, hnd, mode, start, oow, wasKicked, left, njoin, nkick>>
 
 (* awaiter::resume() of one collected awaiter, publisher.h:271 / 287 *)
 Wake(s) ==
@@ -275,17 +304,21 @@ Wake(s) ==
     /\ wakeq' = Tail(wakeq)
     /\ pc' = [pc EXCEPT ![s] = CASE pc[s] = "parked" -> "fetch"
                                  [] pc[s] = "parked_c" -> "wfetch_c"
+                                 [] pc[s] = "parked_l" -> "wfetch_l"
                                  [] pc[s] = "parked_b" -> "wfetch_b"]
     /\ wakes' = [wakes EXCEPT ![s] = @ + 1]
-    /\ UNCHANGED <<pubvars, regs, nextFree, hnd, mode, recv, res, start, oow, wasKicked, njoin, nkick>>
+    /\ UNCHANGED <<pubvars, regs, nextFree, hnd, mode, recv, res, start, oow, wasKicked, left, njoin, nkick>>
 
 (* the resumed coroutine / unblocked thread goes on to await_resume() at once *)
 WFetch(s) ==
     /\ pc[s] \in WFetchPc
     /\ IF pc[s] = "wfetch_b" /\ ~FixBlocking
          THEN DeliverStale(s, Slot(s))
-         ELSE Deliver(s, GetValueLk(Slot(s), mode[s]))
-    /\ UNCHANGED <<pubvars, nextFree, wakeq, hnd, mode, start, oow, wasKicked, njoin, nkick>>
+         ELSE IF pc[s] = "wfetch_l" /\ ~GetValueLk(Slot(s), mode[s]).eos
+                THEN LET g == GetValueLk(Slot(s), mode[s]) IN
+                     Drained(s, DrainFrom(s, g.l, Append(recv[s], g.v), mode[s], MaxPub + 3))
+                ELSE Deliver(s, GetValueLk(Slot(s), mode[s]))
+    /\ UNCHANGED <<pubvars, nextFree, wakeq, hnd, mode, start, oow, wasKicked, left, njoin, nkick>>
 
 -----------------------------------------------------------------------------
 (* push_lk, publisher.h:254-274, up to lk.unlock(): np = new _pos, q1 = deque after the push_front's *)
@@ -306,7 +339,7 @@ PushCS(n) ==
     /\ pubAlive /\ ~closed /\ PubFree
     /\ pos - 1 + n <= MaxPub
     /\ PushLk(pos + n, [i \in 1..n |-> pos + n - i] \o q)
-    /\ UNCHANGED <<nextFree, closed, pubAlive, pc, hnd, mode, recv, res, wakes, start, oow, wasKicked, njoin, nkick>>
+    /\ UNCHANGED <<nextFree, closed, pubAlive, pc, hnd, mode, recv, res, wakes, start, oow, wasKicked, left, njoin, nkick>>
 
 (* publisher::close() / ~publisher(), publisher.h:130-135, 351-359 *)
 Close(how) ==
@@ -315,7 +348,7 @@ Close(how) ==
     /\ pubAlive' = (how = "close")
     /\ IF closed THEN UNCHANGED <<pos, q, wakeq, regs, closed>>
                  ELSE closed' = TRUE /\ PushLk(pos, q)
-    /\ UNCHANGED <<nextFree, pc, hnd, mode, recv, res, wakes, start, oow, wasKicked, njoin, nkick>>
+    /\ UNCHANGED <<nextFree, pc, hnd, mode, recv, res, wakes, start, oow, wasKicked, left, njoin, nkick>>
 
 (* publisher::kick(&sub) / sub.kick_me(), publisher.h:136-139, 276-288 *)
 KickCS(s, via) ==
@@ -325,7 +358,14 @@ KickCS(s, via) ==
     /\ regs' = [regs EXCEPT ![hnd[s] + 1] = [@ EXCEPT !.awt = 0, !.kicked = TRUE]]
     /\ nkick' = nkick + 1
     /\ wasKicked' = [wasKicked EXCEPT ![s] = TRUE]
-    /\ UNCHANGED <<pubvars, nextFree, pc, hnd, mode, recv, res, wakes, start, oow, njoin>>
+    /\ UNCHANGED <<pubvars, nextFree, pc, hnd, mode, recv, res, wakes, start, oow, left, njoin>>
+
+(* publisher::kick(p) with the pointer of a subscriber that does not exist any more: documented to do
+   nothing (publisher.h:363-368); the registration it once had may be unused or reused *)
+KickGone ==
+    /\ left /\ pubAlive /\ PubFree /\ nkick < MaxKick
+    /\ nkick' = nkick + 1
+    /\ UNCHANGED <<pubvars, regs, nextFree, wakeq, pc, hnd, mode, recv, res, wakes, start, oow, wasKicked, left, njoin>>
 
 Next == \/ \E s \in Subs, m \in Modes : SubscribeRecent(s, m)
         \/ \E s \in Subs, p \in AtPos, m \in Modes : SubscribeAt(s, p, m)
@@ -335,12 +375,13 @@ Next == \/ \E s \in Subs, m \in Modes : SubscribeRecent(s, m)
         \/ \E s \in Subs : Subscribe(s)
         \/ \E s \in Subs : Fetch(s)
         \/ \E s \in Subs : Poll(s)
-        \/ \E s \in Subs, st \in {"coro", "block"} : NextWhole(s, st)
+        \/ \E s \in Subs, st \in {"coro", "loop", "block"} : NextWhole(s, st)
         \/ \E s \in Subs : Wake(s)
         \/ \E s \in Subs : WFetch(s)
         \/ \E n \in 1..MaxBatch : PushCS(n)
         \/ \E how \in {"close", "destroy"} : Close(how)
         \/ \E s \in Subs, via \in {"pub", "me"} : KickCS(s, via)
+        \/ KickGone
 
 Spec == Init /\ [][Next]_vars
 
